@@ -797,6 +797,12 @@ func c06RelativeTarget(c *Ctx, op Op, forest []*MNode, doc []byte, want map[stri
 	pre := &Env{Doc: []byte("- earlier\n  - call\n"), Reader: noReaderFault, Writer: noWriterFault, Cb: noCbFault, Disk: &DiskPlan{Jail: j, Target: "first", FailAt: -1}}
 	c.Direct(Op{Kind: "mkdir"}, pre)
 	os.Chdir(cwd2)
+	if c.Draw(2) == 1 {
+		// the target given as "" (after another, overridden, target option) from inside the directory
+		os.Chdir(filepath.Join(cwd2, "out"))
+		op.EmptyTarget, op.Decoys = true, true
+		c.Scenario["state"] = "target given as \"\" after an overridden target option, working directory changed after an earlier call"
+	}
 	env := &Env{Doc: doc, Reader: noReaderFault, Writer: noWriterFault, Cb: noCbFault, Disk: &DiskPlan{Jail: j, Target: "out", FailAt: -1}}
 	if op.FromRoot {
 		env.Tree = forest[0]
